@@ -5,6 +5,9 @@ set -u
 S="$(cd "$1" && pwd)"; TIER="${2:-quick}"
 VERIF_DIR="$(cd "$(dirname "$0")/.." && pwd)"
 P=$(python3 -c "import json,sys;print(json.load(open('$S/meta.json'))['property'])")
+# CHECK=<Cnn> runs another property's check against the change (written to detection_<Cnn>.json)
+OUTF="$S/detection.json"
+if [ -n "${CHECK:-}" ]; then P="$CHECK"; OUTF="$S/detection_$CHECK.json"; fi
 WT=$(mktemp -d /dev/shm/wt_runseed.XXXXXX); rmdir "$WT"
 git -C /repo worktree add -q --detach "$WT" HEAD || exit 2
 if ! git -C "$WT" apply "$S/patch.diff"; then echo "patch does not apply"; git -C /repo worktree remove --force "$WT"; exit 2; fi
@@ -16,7 +19,7 @@ first=$(echo "$out" | grep -m1 '^VIOLATION' | sed 's/.*replay=//')
 case_id=""; obs=""
 if [ -n "$first" ] && [ -f "$first/case.json" ]; then case_id=$(python3 -c "import json;d=json.load(open('$first/case.json'));print(d['case'])"); obs=$(python3 -c "import json;d=json.load(open('$first/case.json'));print(d['observation'][:300])"); fi
 summary=$(echo "$out" | grep -m1 "^$P $TIER:" )
-python3 - "$S/detection.json" "$P" "$TIER" "$code" "$nviol" "$case_id" "$obs" "$summary" "$((end-start))" "$(git -C /repo rev-parse --short HEAD)" <<'PY'
+python3 - "$OUTF" "$P" "$TIER" "$code" "$nviol" "$case_id" "$obs" "$summary" "$((end-start))" "$(git -C /repo rev-parse --short HEAD)" <<'PY'
 import json,sys
 out,p,tier,code,nviol,case,obs,summary,secs,head=sys.argv[1:11]
 import os
